@@ -16,9 +16,9 @@ LEVEL_NOTE = "Trusted: numpy FFT as arithmetic substrate only (oracles are relat
 TECHNIQUE = "runtime monitoring: contract monitors on fft/ifft/propagate + metamorphic relations between recorded executions"
 RULE = ("fftinv: all 49 shapes 2..8 x 2..8 in both layouts ((x,y) and (z,x,y)) with real and complex data (exhaustive "
         "sub-space) + random shapes <=64; prop: random images with spacing/lambda_med in [0.1, 3], |d|/lambda_med "
-        "log-uniform in [1e-2, 1e4], both signs, lists with/without 0 and repeats, cfsp in {0,1,3}, gradient filter. "
+        "log-uniform in [1e-2, 1e4], both signs, integer pixel coordinates, images without z coordinate / with an extra coordinate, plain and 1-D arrays, lists with/without 0 and repeats, cfsp in {0,1,3}, gradient filter. "
         "non-trivial = image not constant and >=1 relation residual computed; distinct by rounded case JSON")
-ASSUMPTIONS = ["images are xarray objects as produced by HoloPy (numpy 2-D arrays are not accepted by fft/ifft)",
+ASSUMPTIONS = ["propagate takes xarray images as produced by HoloPy; fft/ifft also plain arrays (first two axes)",
                "shapes with a singleton image axis are out of the property's range (2x2..64x64)"]
 MIN_NONTRIVIAL = 20
 REQUIRED_COUNTERS = ["fft", "ifft", "propagate"]
